@@ -6,7 +6,7 @@ Testing part: go/cmd/c18 (HTTP fuzzer against a real node in a child process + m
 import json, os, re
 
 SPEC = {
-    "lean_modules": ["SemaModel.C18.Props"],
+    "lean_modules": ["SemaModel.C18.Props", "SemaModel.C18.Tie"],
     "lean_dirs": ["SemaModel/C18"],
     "harness": "c18",
     "harness_args": {"quick": ["-n", 1500], "thorough": ["-n", 9000, "-deepmp", 6000000]},
@@ -27,6 +27,8 @@ SPEC = {
         "Sema.C18.C18_accept_wf", "Sema.C18.C18_reject_pure", "Sema.C18.C18_no_panic", "Sema.C18.C18_headers",
         "Sema.C18.C18_slice_bounds", "Sema.C18.C18_slice_bounds_pinned",
         "Sema.C18.C18_pin_limits", "Sema.C18.C18_pin_enums", "Sema.C18.C18_pin_chain", "Sema.C18.C18_pin_routes", "Sema.C18.C18_pin_skeleton",
+        # tie theorems (SemaModel/C18/Tie.lean): ProductQ.valid = the Validate generated from models/quantizer.go
+        "Sema.C18.C18_tie_productQ", "Sema.C18.C18_tie_productQ_error",
     ],
     "trusted_base": [
         "tools/facts_c18 (go/ast extractor: comparison -> inclusive range normalisation, constant resolution, translation of the paging "
